@@ -27,6 +27,7 @@ type C02Plan struct {
 	AlwaysAbs int     `json:"always_abs,omitempty"` // interface option AlwaysSetAbsoluteExpiry: now + this many seconds at open time (0 = off)
 	AlwaysRel int     `json:"always_rel,omitempty"` // interface option AlwaysSetRelativateExpiry in seconds (0 = off)
 	IterFault int     `json:"iter_fault,omitempty"` // >0: separate scenario: the backend query ends with an error after n-1 records
+	FlushAPI  bool    `json:"flush_api,omitempty"` // the delayed-write cache is flushed with Interface.FlushCache instead of by stopping its writer
 	Slow      int     `json:"slow,omitempty"` // slow-consumer scenario: number of records queried by a consumer that stalls after the first one
 }
 
@@ -89,6 +90,7 @@ func genC02(rng *rand.Rand, tier string) *C02Plan {
 	if tier == "thorough" {
 		n = 2 + rng.IntN(30)
 	}
+	p.FlushAPI = p.Cache == 2 && rng.IntN(2) == 0
 	switch rng.IntN(10) {
 	case 0:
 		// expiry scenario: one record whose expiry is set several times in different ways, with reads in between
@@ -118,6 +120,38 @@ func genC02(rng *rand.Rand, tier string) *C02Plan {
 		p.Ops = append(p.Ops, C02Op{Kind: []string{"delete", "delete", "put"}[rng.IntN(3)], Key: ks[rng.IntN(2)], Seed: rng.IntN(1 << 20)})
 		p.Ops = append(p.Ops, C02Op{Kind: []string{"flush", "advance"}[rng.IntN(2)], Secs: 10})
 		p.Ops = append(p.Ops, C02Op{Kind: "get", Key: ks[0]}, C02Op{Kind: "get", Key: ks[1]}, C02Op{Kind: "query"})
+	case 2:
+		// bulk scenario: every key is written (so that the backend's storage pages are really in use), some records
+		// are read (and remembered by a cache), more writes follow, the same records are read again
+		for k := range keyPool {
+			p.Ops = append(p.Ops, C02Op{Kind: "put", Key: k, Seed: rng.IntN(1 << 20), Wrapped: rng.IntN(2) == 0})
+		}
+		ks := rng.Perm(len(keyPool))[:4]
+		for _, k := range ks {
+			p.Ops = append(p.Ops, C02Op{Kind: "get", Key: k})
+		}
+		for i := 0; i < 6; i++ {
+			k := rng.IntN(len(keyPool))
+			if k == ks[0] || k == ks[1] {
+				continue
+			}
+			p.Ops = append(p.Ops, C02Op{Kind: "put", Key: k, Seed: rng.IntN(1 << 20), Wrapped: true})
+		}
+		for _, k := range ks {
+			p.Ops = append(p.Ops, C02Op{Kind: "get", Key: k})
+		}
+	case 3:
+		// second database: the same interface also writes to a database its delayed-write setting does not name
+		k := rng.IntN(len(keyPool))
+		if p.Cache != 0 {
+			p.CacheSize = 2
+		}
+		p.AlwaysAbs, p.AlwaysRel = 0, 0 // (the model of the second database knows no expiry)
+		p.Ops = append(p.Ops, C02Op{Kind: "put2", Key: k, Seed: rng.IntN(1 << 20)}, C02Op{Kind: "get2", Key: k}, C02Op{Kind: "flush"})
+		for _, o := range rng.Perm(len(keyPool))[:3] {
+			p.Ops = append(p.Ops, C02Op{Kind: "put", Key: o, Seed: rng.IntN(1 << 20)}) // pushes the record out of a small cache
+		}
+		p.Ops = append(p.Ops, C02Op{Kind: "get2", Key: k}, C02Op{Kind: "advance", Secs: 10}, C02Op{Kind: "get2", Key: k})
 	}
 	kinds := []string{"put", "put", "put", "putnew", "get", "exists", "delete", "delete", "putmany", "purge", "setabs", "setrel", "maintain", "maintainall", "query", "query", "advance", "advance", "clearcache", "flush"}
 	for i := 0; i < n; i++ {
@@ -157,6 +191,7 @@ type c02State struct {
 	bypassed   bool
 	alwaysAbs  int64
 	writerDone chan struct{}
+	model2     map[string]string // second database: key -> nonce
 }
 
 func fieldsFromSeed(seed int) Fields {
@@ -303,7 +338,12 @@ func buildQuery(prefix string, c *Cond) *query.Query {
 }
 
 func (s *c02State) flushDelayed() {
-	// the only public way to force the delayed-write cache out is to stop its writer
+	if s.p.FlushAPI {
+		// the documented way: "FlushCache writes (and thus clears) the write cache"
+		s.iface.FlushCache()
+		return
+	}
+	// the other way to force the delayed-write cache out is to stop its writer
 	if s.stopWriter != nil {
 		s.stopWriter()
 		<-s.writerDone
@@ -356,6 +396,11 @@ func execC02(p *C02Plan, rc *simkit.RunCtx) {
 	}
 	s.alwaysAbs = alwaysAbs
 	s.iface = database.NewInterface(opts)
+	s.model2 = map[string]string{}
+	if _, err := database.Register(&database.Database{Name: "simdb2", Description: "second database", StorageType: "hashmap"}); err != nil {
+		rc.Fail("C02.harness", "could not register the second database", err.Error())
+		return
+	}
 	if p.Cache == 2 {
 		s.startWriter()
 		defer func() {
@@ -638,6 +683,31 @@ func execC02(p *C02Plan, rc *simkit.RunCtx) {
 				secs = 3601 // periodic background work (write-cache tickers, badger) makes very long sleeps expensive to simulate
 			}
 			time.Sleep(time.Duration(secs) * time.Second)
+		case "put2":
+			nonceCounter++
+			nonce := fmt.Sprintf("s%d", nonceCounter)
+			r := &Rec{N: nonce, S: "second"}
+			r.SetKey("simdb2:" + key)
+			r.CreateMeta()
+			if err := s.iface.Put(r); err != nil {
+				rc.Fail("C02.put-error", "put into the second database failed", err.Error())
+				return
+			}
+			s.model2[key] = nonce
+		case "get2":
+			r, err := s.iface.Get("simdb2:" + key)
+			want, stored := s.model2[key]
+			switch {
+			case stored && err != nil:
+				rc.Fail("C02.get-missing", "get did not return a record stored in a second database through the same interface"+s.cfgNote(), fmt.Sprintf("%s: %v", when, err))
+				return
+			case stored && nonceOf(r) != want:
+				rc.Fail("C02.get-wrong-data", "get returned data other than the most recently stored (second database)"+s.cfgNote(), fmt.Sprintf("%s: got %s want %s", when, nonceOf(r), want))
+				return
+			case !stored && err == nil:
+				rc.Fail("C02.get-stale", "get returned a record that was never stored (second database)", when)
+				return
+			}
 		case "clearcache":
 			if p.Cache != 2 {
 				s.iface.ClearCache()
